@@ -1,7 +1,8 @@
 SPECIFICATION Spec
 CONSTANTS
-  MaxBytes = 3
-  Cuts = {"transit"}
+  MaxBytes = 2
+  Cuts = {"transit", "stall"}
+  ForwarderWaitsOnNode = FALSE
   AcceptLeavesDeadline = FALSE
   MaxNotices = 1
   NoticeEndsStream = FALSE
